@@ -2,7 +2,7 @@
 """Regenerates MANIFEST.json from the table below (kept next to the driver so the two cannot drift)."""
 import json, subprocess
 
-HOOK_COMMITS = ["c341338", "65a25d2", "21b6488", "b38e07e"]
+HOOK_COMMITS = ["c341338", "65a25d2", "21b6488", "b38e07e"]  # abbreviated hashes in /repo
 
 CLAIMED = {
  # id: (engine, category, technique, level text, level note, design ref)
@@ -42,6 +42,22 @@ CLAIMED = {
          "Requests over every registered route x methods x bodies x headers x queries must cause zero write calls in read-only mode; the read-write twin shows which of them are real writes.",
          "Trusted: the recording fake backend; chi.Walk lists every registered route.",
          "DESIGN.md 5/C19"),
+
+ "C04": ("SQLREC", "exploration",
+         "PARTIAL: metamorphic property-based testing of the SQL text per ledger name (recording driver + PostgreSQL lexer); fold-based oracles for the Go-side volume derivations and for storage.InMemoryStore",
+         "PARTIAL CLAIM. The SQL/plpgsql projection (triggers, volume functions, point-in-time reads) cannot be executed without PostgreSQL and is not covered. Covered: (a) every read method's SQL depends on the ledger name exactly through string constants and every statement on a ledger-scoped table carries it (ledger isolation); (b) Go-side volume derivations equal the fold; (c) InMemoryStore equals the fold.",
+         "Trusted: bun renders arguments into the statement text; the PostgreSQL lexer; the harness fold. NOT covered: 0-init-schema.sql behaviour.",
+         "DESIGN.md 5/C04 and 6"),
+ "C15": ("LOCKSIM", "exploration",
+         "stateful model-based property testing of the real DefaultLocker inside a synctest bubble; generated action lists incl. cancel-at-the-moment-of-grant; invariants observed from outside",
+         "Generated request/release/cancel/grant-race sequences run on the real locker; after every step exclusion, no-grantable-waiter-left, cancelled-requests-return hold, and at the end a probe proves that nothing stays locked. Each list runs 6 times because Go's select is random when both outcomes are ready.",
+         "Trusted: synctest.Wait gives exact quiescence; the only delay injected is at the verifhook point lock.queued.",
+         "DESIGN.md 5/C15"),
+ "C20": ("SQLREC", "exploration",
+         "metamorphic property-based testing: hostile request vs benign twin of the same shape through the real routers and ledgerstore over a recording driver; PostgreSQL-lexer skeleton equality",
+         "Generated filter requests (all keys/operators, v1 parameters and v2 bodies) with hostile strings must either be rejected or produce SQL whose token skeleton equals that of a harmless twin.",
+         "Trusted: the PostgreSQL lexer of harness/sqlrec (standard_conforming_strings=on); jsonpath/JSON content inside a string constant is not inspected.",
+         "DESIGN.md 5/C20"),
 
  "C02": ("ENGINE-SIM", "exploration",
          "stateful property-based testing with a harness-owned scheduler (rapid + testing/synctest); invariant over the persisted history (independent fold, per-debit floor)",
@@ -124,6 +140,8 @@ def main():
     open("MANIFEST.json", "a").write("\n")
 
 ENGINES = [
+ {"name": "SQLREC", "path": "harness/sqlrec", "serves_properties": ["C04", "C20"], "kind_free_text": "recording database/sql driver behind bun + PostgreSQL lexer"},
+ {"name": "LOCKSIM", "path": "harness/checks/c15_test.go", "serves_properties": ["C15"], "kind_free_text": "real DefaultLocker in a synctest bubble driven by generated action lists"},
  {"name": "HTTPSIM", "path": "harness/httpsim", "serves_properties": ["C18", "C19"], "kind_free_text": "real chi routers over a recording fake backend, served with httptest"},
  {"name": "NUMGEN", "path": "harness/numgen", "serves_properties": ["C01", "C03", "C08", "C12"], "kind_free_text": "Numscript AST, typed and loose generators, printer, reference interpreter"},
  {"name": "ENGINE-SIM", "path": "harness/enginesim", "serves_properties": ["C02", "C05", "C06", "C07", "C10", "C11", "C14", "C16"], "kind_free_text": "deterministic schedule/crash/fault simulation of command.Commander in a synctest bubble + history oracles"},
